@@ -94,6 +94,11 @@ class Tr:
             return '(EComp %s %s %s)' % (cstring(g.target.id), self.expr(e.elt), self.expr(g.iter))
         if isinstance(e, ast.Dict) and not e.keys:
             return '(EConst (VDict []))'
+        if isinstance(e, ast.Dict):
+            try:
+                return '(EConst %s)' % const_value(ast.literal_eval(e))          # a dictionary literal of constants
+            except ValueError:
+                raise Untranslatable('dictionary literal with non-constant entries')
         if isinstance(e, ast.BinOp) and isinstance(e.op, ast.Mod) and isinstance(e.left, ast.Constant) and isinstance(e.left.value, str):
             args = e.right.elts if isinstance(e.right, ast.Tuple) else [e.right]
             t = e.left.value
@@ -422,6 +427,12 @@ class Tr:
             if len(s.targets) != 1:
                 raise Untranslatable('multiple assignment')
             return '(SAssign %s %s)' % (self.target(s.targets[0]), self.expr(s.value))
+        if isinstance(s, ast.AugAssign) and isinstance(s.op, (ast.Add, ast.Sub)) and isinstance(s.target, ast.Subscript) \
+                and not isinstance(s.target.slice, ast.Slice) and isinstance(s.target.value, ast.Name):
+            x = self.target(s.target.value)           # x[k] += v : x[k] = x[k] + v (k is an expression without effects)
+            k = self.expr(s.target.slice)
+            op = 'EAdd' if isinstance(s.op, ast.Add) else 'ESub'
+            return '(SSetItem %s %s (%s (EIndex (EVar %s) %s) %s))' % (x, k, op, x, k, self.expr(s.value))
         if isinstance(s, ast.AugAssign) and isinstance(s.op, (ast.Add, ast.Sub)):
             t = self.target(s.target)
             op = 'EAdd' if isinstance(s.op, ast.Add) else 'ESub'
@@ -477,7 +488,7 @@ def literal_dicts(path):
 
 
 FDIV = {'g_LZW', 'g_LC', 'g_CWF'}
-QDIV = {'g_wl_geometry', 'g_linDensity', 'g_meanHydropathy', 'g_uverskyHydropathy', 'g_meanWWHydropathy', 'g_molecular_weight', 'g_FPPII_chain', 'g_fraction_disorder_promoting', 'g_FER', 'g_linHydro', 'g_charge_at_pH', 'g_SCD', 'g_sigma', 'g_deltaForm', 'g_delta', 'g_kappa', 'g_Fplus', 'g_Fminus', 'g_FCR', 'g_NCPR'}
+QDIV = {'g_amino_acid_fraction', 'g_wl_geometry', 'g_linDensity', 'g_meanHydropathy', 'g_uverskyHydropathy', 'g_meanWWHydropathy', 'g_molecular_weight', 'g_FPPII_chain', 'g_fraction_disorder_promoting', 'g_FER', 'g_linHydro', 'g_charge_at_pH', 'g_SCD', 'g_sigma', 'g_deltaForm', 'g_delta', 'g_kappa', 'g_Fplus', 'g_Fminus', 'g_FCR', 'g_NCPR'}
 
 FUNCS = [
     # (Coq name, file, class, function, prefixes under which the data module's names are visible there)
@@ -552,6 +563,7 @@ FUNCS = [
     ('g_FPPII_chain', 'localcider/backend/sequence.py', 'Sequence', 'FPPII_chain', ['data.aminoacids.', 'aminoacids.']),
     ('g_fraction_disorder_promoting', 'localcider/backend/sequence.py', 'Sequence', 'fraction_disorder_promoting', ['data.aminoacids.', 'aminoacids.']),
     ('g_FER', 'localcider/backend/sequence.py', 'Sequence', 'FER', ['data.aminoacids.', 'aminoacids.']),
+    ('g_amino_acid_fraction', 'localcider/backend/sequence.py', 'Sequence', 'amino_acid_fraction', []),
     ('g_countPos', 'localcider/backend/sequence.py', 'Sequence', 'countPos', []),
     ('g_countNeg', 'localcider/backend/sequence.py', 'Sequence', 'countNeg', []),
     ('g_countNeut', 'localcider/backend/sequence.py', 'Sequence', 'countNeut', []),
